@@ -57,6 +57,25 @@ def _set_names(f: Func, setfuncs: Set[str]) -> Set[str]:
 _SET_METHODS = ("difference", "union", "intersection", "symmetric_difference", "copy")
 
 
+def _sort_key_total(call: ast.Call) -> bool:
+    """Does sorted(S, key=..) order every pair of distinct elements?  Without a key it does (names are strings).  A key
+    does when it returns the element itself or a tuple that contains it; a key such as `lambda v: v in captured` has
+    two values, and the stable sort keeps the set's own (hash) order among equal keys."""
+    kw = next((k.value for k in call.keywords if k.arg == "key"), None)
+    if kw is None:
+        return True
+    if isinstance(kw, ast.Name) and kw.id in ("str", "repr"):
+        return True
+    if isinstance(kw, ast.Lambda) and len(kw.args.args) == 1:
+        p = kw.args.args[0].arg
+        b = kw.body
+        if isinstance(b, ast.Name) and b.id == p:
+            return True
+        if isinstance(b, (ast.Tuple, ast.List)) and any(isinstance(e, ast.Name) and e.id == p for e in b.elts):
+            return True
+    return False
+
+
 def _is_set_expr(e: ast.AST, sn: Set[str], setfuncs: Set[str]) -> bool:
     """Does e evaluate to a Python set: a set-typed local, a display/comprehension, set(..), a set method that
     returns a set (S.difference(x)), a set operator?"""
@@ -111,6 +130,10 @@ def rule_hash_order(ctx, rep, rid: str) -> None:
                             tainted[t.attr] = f"{f.qual}:{n.lineno}: {short(n, 60)}"
                         elif isinstance(t, ast.Name):
                             tainted["@" + f.qual + ":" + t.id] = f"{f.qual}:{n.lineno}"
+                if isinstance(v, ast.Call) and norm(v.func) == "sorted" and v.args and isinstance(v.args[0], ast.Name) and v.args[0].id in sn and not _sort_key_total(v):
+                    sources += 1
+                    rep.bad(rid, f"{f.qual}:{norm(n.targets[0])} = sorted({v.args[0].id}, key)", f"{f.qual} sorts the set {v.args[0].id} with a key that does not tell all elements apart ({short(v, 60)}): the sort is stable, so elements with equal keys stay in the set's iteration order, which depends on the host's string-hash seed", f"{f.module.rel}:{n.lineno}")
+                    continue
                 if isinstance(v, ast.Call) and norm(v.func) == "sorted" and v.args and isinstance(v.args[0], ast.Name) and v.args[0].id in sn:
                     # sorted(S): the sequence's order is a function of its contents, not of the hash seed
                     ordered += 1
@@ -124,6 +147,10 @@ def rule_hash_order(ctx, rep, rid: str) -> None:
                     sources += 1
                     tainted[n.func.value.attr] = f"{f.qual}:{n.lineno}: {short(n, 60)}"
             # for x in sorted(S): deterministic
+            if isinstance(n, ast.For) and isinstance(n.iter, ast.Call) and norm(n.iter.func) == "sorted" and n.iter.args and isinstance(n.iter.args[0], ast.Name) and n.iter.args[0].id in sn and not _sort_key_total(n.iter):
+                sources += 1
+                rep.bad(rid, f"{f.qual}:for {norm(n.target)} in sorted({n.iter.args[0].id}, key)", f"{f.qual} iterates the set {n.iter.args[0].id} sorted with a key that does not tell all elements apart ({short(n.iter, 60)}): the sort is stable, so elements with equal keys keep the set's iteration order, which depends on the host's string-hash seed (slot numbers, and the error texts that quote them, then differ between runs)", f"{f.module.rel}:{n.lineno}")
+                continue
             if isinstance(n, ast.For) and isinstance(n.iter, ast.Call) and norm(n.iter.func) == "sorted" and n.iter.args and isinstance(n.iter.args[0], ast.Name) and n.iter.args[0].id in sn:
                 ordered += 1
                 rep.ok(rid, f"{f.qual}:for {norm(n.target)} in sorted({n.iter.args[0].id})", {"order": "sorted: independent of the hash seed"})
